@@ -373,6 +373,9 @@ def digest_term(it, algo, log):
             out[-1] = K(out[-1].v + p.v)
         else:
             out.append(p)
+    if getattr(it, 'CONCRETE_HASH', False) and all(isinstance(p, K) and isinstance(p.v, (bytes, bytearray)) for p in out):
+        import hashlib
+        return K(hashlib.new(algo, b''.join(bytes(p.v) for p in out)).digest())
     return Term(algo, *out)
 
 
